@@ -199,9 +199,14 @@ impl Builder {
 
     pub fn claims(&mut self, thorough: bool) -> ClaimsSpec {
         match self.rng.below(10) {
-            0..=5 => {
+            0..=4 => {
                 let n = self.payload_len(thorough);
                 ClaimsSpec::Raw { bytes: self.bytes(n) }
+            }
+            5 => {
+                // the payload encoding with its own header suffix
+                let n = self.payload_len(thorough);
+                ClaimsSpec::RawC { bytes: self.bytes(n) }
             }
             6 | 7 => ClaimsSpec::Json { value: self.json_object() },
             8 => ClaimsSpec::Reg { claims: self.reg_claims() },
